@@ -237,6 +237,82 @@ def run(chk, replay=None):
             chk.count('lcapy-error', 'time-limit')
             chk.case(('timeout', tuple(case['lcapy'])), False)
 
+    # ---- one-port networks: net.thevenin() / net.norton() against the network itself
+    def leaf(kind):
+        a = R_(Fraction(rng.randint(1, 9), rng.randint(1, 3)))
+        b = R_(Fraction(rng.randint(1, 9), rng.randint(1, 3)) * rng.choice([1, -1]))
+        if kind == 'R':
+            return lcapy.R(a)
+        if kind == 'C':
+            return lcapy.C(a, b) if rng.random() < 0.5 else lcapy.C(a)
+        if kind == 'L':
+            return lcapy.L(a, b) if rng.random() < 0.5 else lcapy.L(a)
+        if kind == 'V':
+            return lcapy.Vstep(b)
+        return lcapy.Istep(b)
+
+    def tree(depth, top='ser'):
+        n = rng.randint(2, 4)
+        if top == 'ser':
+            kinds = [rng.choice(['R', 'C', 'L', 'V', 'C', 'R']) for _ in range(n)]
+        else:
+            kinds = [rng.choice(['R', 'C', 'L', 'I', 'R']) for _ in range(n)]
+        parts = []
+        for kd in kinds:
+            if depth > 0 and rng.random() < 0.35:
+                parts.append(tree(depth - 1, 'par' if top == 'ser' else 'ser'))
+            else:
+                parts.append(leaf(kd))
+        net = parts[0]
+        for q in parts[1:]:
+            net = (net + q) if top == 'ser' else (net | q)
+        return net
+
+    nnets = 14 if quick else 200
+    for k in range(nnets):
+        sp = Fraction(rng.randint(1, 9), rng.randint(2, 5))
+        try:
+            with common.time_limit(20):
+                net = tree(1, rng.choice(['ser', 'par']))
+                desc = str(net)
+                Voc0 = at(net.Voc.laplace(), sp, {})
+                Z0 = at(net.Z, sp, {})
+                th = net.thevenin()
+                no = net.norton()
+                VocT, ZT = at(th.Voc.laplace(), sp, {}), at(th.Z, sp, {})
+                IscN, YN = at(no.Isc.laplace(), sp, {}), at(no.Y, sp, {})
+                Isc0 = at(net.Isc.laplace(), sp, {})
+        except (Exception, common.TimeLimit) as e:   # noqa
+            chk.count('lcapy-error', 'oneport:' + type(e).__name__)
+            chk.case(('oneport-err', k), False)
+            continue
+        if None in (Voc0, Z0, VocT, ZT, IscN, YN, Isc0):
+            chk.case(('oneport-nr', desc), False)
+            continue
+        chk.case(('oneport', desc, sp), True)
+        chk.count('oracle', 'oneport-models')
+        if len(chk.coverage['samples']) < 8:
+            chk.sample({'oneport': desc, 's': fstr(sp)})
+        def close(a, b):
+            # thevenin()/norton() of a one-port go through the time domain with numerically found roots, so their
+            # values may carry floating-point noise: compare with a relative tolerance, never exactly
+            da = abs(complex(float(a[0]), float(a[1])) - complex(float(b[0]), float(b[1])))
+            return da <= 1e-7 * max(1.0, abs(complex(float(b[0]), float(b[1]))))
+        bad = None
+        if close(VocT, Voc0) and close(ZT, Z0) and close(IscN, Isc0):
+            if (VocT, ZT, IscN) != (Voc0, Z0, Isc0):
+                chk.count('oneport', 'equal-up-to-float-noise')
+        elif not close(VocT, Voc0) or not close(ZT, Z0):
+            bad = 'thevenin() model (Voc %s, Z %s) differs from the network (Voc %s, Z %s)' % (VocT, ZT, Voc0, Z0)
+        elif not close(IscN, Isc0) or (Z0 != (0, 0) and not close((YN[0] * Z0[0] - YN[1] * Z0[1], YN[0] * Z0[1] + YN[1] * Z0[0]), (Fraction(1), Fraction(0)))):
+            bad = 'norton() model (Isc %s, Y %s) differs from the network (Isc %s, Z %s)' % (IscN, YN, Isc0, Z0)
+        if bad:
+            n_cex += 1
+            chk.counterexample({'kind': 'oneport-model'},
+                               {'input': {'oneport': desc, 's': fstr(sp)}, 'lcapy': bad,
+                                'spec': 'the Thevenin / Norton model of a one-port has the Voc, Isc, Z, Y of the one-port'},
+                               'one-port Thevenin/Norton model differs from the network it was derived from')
+
     chk.coverage['correspondence']['samples_of_disagreement'] = disagreements[:5]
     if broken and n_cex == 0:
         for b in broken[:20]:
